@@ -87,6 +87,7 @@ type Parser struct {
 	fonts                   *FontConfig
 	maxLineLength           int
 	compileSwitches         map[string]string
+	continueEndsColonCase   bool
 	constants               map[string]string
 	enableEnvironmentErrors bool
 }
@@ -1535,7 +1536,11 @@ func (p *Parser) parseContinueStatement(scriptName string) (*ast.ContinueStateme
 	}
 	statement.LoopStatment = p.peekContinueStack()
 
-	if p.peekToken.Type != token.RBRACE {
+	// The statement of a 'LABEL: statement' poryswitch case is followed by the next case label. Whether it is
+	// the last statement of the enclosing block is checked by parsePoryswitchStatement, if the case is selected.
+	endsColonCase := p.continueEndsColonCase
+	p.continueEndsColonCase = false
+	if p.peekToken.Type != token.RBRACE && !endsColonCase {
 		return nil, NewParseError(p.curToken, "'continue' must be the last statement in block scope")
 	}
 
@@ -2007,6 +2012,8 @@ func (p *Parser) formatTextTerminator(text string, strType string) string {
 
 func (p *Parser) parsePoryswitchStatement(scriptName string) ([]ast.Statement, *impData, error) {
 	startToken := p.curToken
+	endsColonCase := p.continueEndsColonCase
+	p.continueEndsColonCase = false
 	switchCase, switchValue, err := p.parsePoryswitchHeader()
 	if err != nil {
 		return nil, nil, err
@@ -2032,7 +2039,7 @@ func (p *Parser) parsePoryswitchStatement(scriptName string) ([]ast.Statement, *
 	// The selected statements take the place of the poryswitch statement, so a 'continue'
 	// at their end must also be the last statement of the enclosing block.
 	if n := len(statements); n > 0 {
-		if continueStmt, ok := statements[n-1].(*ast.ContinueStatement); ok && p.peekToken.Type != token.RBRACE {
+		if continueStmt, ok := statements[n-1].(*ast.ContinueStatement); ok && p.peekToken.Type != token.RBRACE && !endsColonCase {
 			return nil, nil, NewParseError(continueStmt.Token, "'continue' must be the last statement in block scope")
 		}
 	}
@@ -2078,6 +2085,7 @@ func (p *Parser) parsePoryswitchStatements(scriptName string, allowMultiple bool
 	statements := make([]ast.Statement, 0)
 	impData := &impData{}
 	for p.curToken.Type != token.RBRACE {
+		p.continueEndsColonCase = !allowMultiple && (p.curToken.Type == token.CONTINUE || p.curToken.Type == token.PORYSWITCH)
 		if p.curToken.Type == token.PORYSWITCH {
 			poryswitchStatements, stmtImpData, err := p.parsePoryswitchStatement(scriptName)
 			if err != nil {
